@@ -241,6 +241,13 @@ func (ev *enumEval) eval(fr *frame, v ssa.Value) (any, bool) {
 						}
 						return false, true
 					}
+					// two non-ASCII probes: U+00E9 (é, a letter) and U+20AC (€, a symbol)
+					if rv == 0xE9 {
+						return name == "unicode.IsLetter", true
+					}
+					if rv == 0x20AC {
+						return false, true
+					}
 					ev.undecided("unicode class of non-ASCII rune %d not modelled", rv)
 					return nil, false
 				}
